@@ -25,6 +25,19 @@
 //! the start of the big frame, the sender had already returned, the body does not exceed the kernel's
 //! buffering) is counted "not forced" and never contributes a timing violation.
 //!
+//! Class "local write failure" (blocking `Client` only: the one client with a write timeout). Here the
+//! peer delivers NO fault: it reads the in-flight requests (and never answers them), stops reading and
+//! stays silent with the socket open. The fault is the client's own: with `set_write_timeout(100..400 ms)`
+//! the big send is given up part-way and its caller gets the error; the client has then declared the
+//! connection unusable. From that instant (taken by the failing caller itself) the same oracle applies:
+//! calls in flight, callers queued behind the sender and calls issued afterwards must have ended with an
+//! error before the peer releases `LINGER` later (close, RST, or resuming to read until end-of-stream and
+//! then closing), within `BOUND`. Varied: 1..16 calls in flight, the big request issued from a fresh thread
+//! or from a thread that already completed an answered call on this client (which then also issues the
+//! first later call), the write timeout, the request size (just above what the kernel can buffer .. well
+//! above; one size the kernel can swallow, which is counted "not forced"). Forced = the big sender returned
+//! an I/O error while the peer was silent and holding the socket, after the peer had seen the frame start.
+//!
 //! All scenarios of the table run concurrently (one script thread each, own listener, own client), so
 //! the whole class costs about LINGER + 2 s of wall time. No probe gates are used: concurrent clients
 //! share request ids, so probe events cannot be attributed; the peer's own byte stream is the evidence.
@@ -64,6 +77,8 @@ pub enum SFault {
     PeerClose,
     /// SO_LINGER 0 close
     PeerRst,
+    /// no fault from the peer at all: the client's own frame write times out against the silent peer
+    LocalWriteTimeout,
 }
 
 impl SFault {
@@ -77,6 +92,7 @@ impl SFault {
             SFault::WsEmpty => "ws-empty-binary".into(),
             SFault::PeerClose => "peer-close".into(),
             SFault::PeerRst => "peer-rst".into(),
+            SFault::LocalWriteTimeout => "write-timeout".into(),
         }
     }
     /// the socket stays open after the fault: the peer lingers
@@ -113,19 +129,50 @@ pub struct Scen {
     pub push_notify: bool,
     pub release_rst: bool,
     pub case: u64,
+    /// local-write-failure class: the configured write timeout
+    pub wt_ms: u64,
+    /// body bytes of the big request (0: the batch's default)
+    pub big_len: usize,
+    /// local-write-failure class: the big request (and the first later call) come from a thread that already
+    /// completed an answered call on this client
+    pub same_thread: bool,
+    /// local-write-failure class: the peer releases by reading on until end-of-stream, then closes
+    pub release_resume: bool,
 }
 
 impl Scen {
+    fn local(&self) -> bool {
+        self.fault == SFault::LocalWriteTimeout
+    }
     fn class(&self) -> &'static str {
-        if self.write_timeout { "stalled-writer+write-timeout" } else { "stalled-writer" }
+        if self.local() {
+            "local-write-failure"
+        } else if self.write_timeout {
+            "stalled-writer+write-timeout"
+        } else {
+            "stalled-writer"
+        }
+    }
+    fn wt(&self) -> Duration {
+        if self.local() { Duration::from_millis(self.wt_ms) } else { WRITE_TIMEOUT }
+    }
+    fn release_name(&self) -> &'static str {
+        if self.release_resume {
+            "resume-reading-then-close"
+        } else if self.release_rst {
+            "rst"
+        } else {
+            "close"
+        }
     }
     fn sig(&self, what: &str) -> String {
         format!("C06:{}:{}:{}:{what}", self.kind.name(), self.class(), self.fault.name())
     }
     fn replay(&self, seed: u64) -> Value {
-        json!({"scenario": "stalled-writer", "client": self.kind.name(), "fault": self.fault.name(), "write_timeout_ms": if self.write_timeout { Some(WRITE_TIMEOUT.as_millis() as u64) } else { None },
+        json!({"scenario": self.class(), "client": self.kind.name(), "fault": self.fault.name(), "write_timeout_ms": if self.write_timeout { Some(self.wt().as_millis() as u64) } else { None },
+               "big_body_bytes": self.big_len, "big_request_from_a_thread_with_a_completed_call": self.same_thread,
                "in_flight": self.n_inflight, "queued_behind_sender": self.n_queued, "per_call_timeouts": self.per_call_timeouts, "sender_timeout": self.sender_timeout,
-               "notify_pushed_before_fault": self.push_notify, "release": if self.release_rst { "rst" } else { "close" }, "linger_ms": LINGER.as_millis() as u64, "seed": seed, "case": self.case})
+               "notify_pushed_before_fault": self.push_notify, "release": self.release_name(), "linger_ms": LINGER.as_millis() as u64, "seed": seed, "case": self.case})
     }
 }
 
@@ -144,7 +191,8 @@ struct BigBody {
 
 enum Body {
     Small(Value),
-    Big(u64),
+    /// (token, pad bytes)
+    Big(u64, usize),
 }
 
 // ------------------------------------------------------------------ calls (own bookkeeping: every result carries the instant it ended)
@@ -157,6 +205,8 @@ struct Fin {
 
 #[derive(Clone, Copy, Debug, PartialEq, Eq)]
 enum Role {
+    /// answered by the peer before anything else happens (local-write-failure class, same-thread variant)
+    Pre,
     InFlight,
     Sender,
     Queued,
@@ -187,6 +237,39 @@ struct Shared {
     seed: u64,
 }
 
+fn sync_call(c: &repe::Client, big: usize, idx: usize, body: &Body, timeout: Option<Duration>) -> Fin {
+    let r = catching(|| match (body, timeout) {
+        (Body::Small(v), None) => c.call_json(PATH, v),
+        (Body::Small(v), Some(d)) => c.call_json_with_timeout(PATH, v, d),
+        (Body::Big(t, n), None) => c.call_json(PATH, &BigBody { t: *t, p: &big_pad(big)[..*n] }),
+        (Body::Big(t, n), Some(d)) => c.call_json_with_timeout(PATH, &BigBody { t: *t, p: &big_pad(big)[..*n] }, d),
+    });
+    let at = Instant::now();
+    let res = match r {
+        Ok(r) => conv(r),
+        Err(p) => CallRes::Panic(p),
+    };
+    Fin { idx, res, at }
+}
+
+type Job = (usize, Body, Option<Duration>);
+
+/// Blocking client: a caller thread that stays alive and makes one call after the other.
+fn spawn_worker(sh: &Shared, c: &repe::Client, tx: &mpsc::Sender<Fin>) -> Option<mpsc::Sender<Job>> {
+    let (jtx, jrx) = mpsc::channel::<Job>();
+    let (c, tx, big) = (c.clone(), tx.clone(), sh.big);
+    std::thread::Builder::new()
+        .stack_size(256 << 10)
+        .name("c06-stalled-worker".into())
+        .spawn(move || {
+            while let Ok((idx, body, timeout)) = jrx.recv() {
+                let _ = tx.send(sync_call(&c, big, idx, &body, timeout));
+            }
+        })
+        .ok()
+        .map(|_| jtx)
+}
+
 fn launch(sh: &Shared, cli: &Cli, tx: &mpsc::Sender<Fin>, idx: usize, body: Body, timeout: Option<Duration>) {
     let tx = tx.clone();
     let big = sh.big;
@@ -194,18 +277,7 @@ fn launch(sh: &Shared, cli: &Cli, tx: &mpsc::Sender<Fin>, idx: usize, body: Body
         Cli::Sync(c) => {
             let tx2 = tx.clone();
             let r = std::thread::Builder::new().stack_size(256 << 10).name("c06-stalled-call".into()).spawn(move || {
-                let r = catching(|| match (&body, timeout) {
-                    (Body::Small(v), None) => c.call_json(PATH, v),
-                    (Body::Small(v), Some(d)) => c.call_json_with_timeout(PATH, v, d),
-                    (Body::Big(t), None) => c.call_json(PATH, &BigBody { t: *t, p: big_pad(big) }),
-                    (Body::Big(t), Some(d)) => c.call_json_with_timeout(PATH, &BigBody { t: *t, p: big_pad(big) }, d),
-                });
-                let at = Instant::now();
-                let res = match r {
-                    Ok(r) => conv(r),
-                    Err(p) => CallRes::Panic(p),
-                };
-                let _ = tx.send(Fin { idx, res, at });
+                let _ = tx.send(sync_call(&c, big, idx, &body, timeout));
             });
             if let Err(e) = r {
                 let _ = tx2.send(Fin { idx, res: CallRes::Panic(format!("harness: thread spawn failed: {e}")), at: Instant::now() });
@@ -216,8 +288,8 @@ fn launch(sh: &Shared, cli: &Cli, tx: &mpsc::Sender<Fin>, idx: usize, body: Body
                 let r = match (&body, timeout) {
                     (Body::Small(v), None) => c.call_json(PATH, v).await,
                     (Body::Small(v), Some(d)) => c.call_json_with_timeout(PATH, v, d).await,
-                    (Body::Big(t), None) => c.call_json(PATH, &BigBody { t: *t, p: big_pad(big) }).await,
-                    (Body::Big(t), Some(d)) => c.call_json_with_timeout(PATH, &BigBody { t: *t, p: big_pad(big) }, d).await,
+                    (Body::Big(t, n), None) => c.call_json(PATH, &BigBody { t: *t, p: &big_pad(big)[..*n] }).await,
+                    (Body::Big(t, n), Some(d)) => c.call_json_with_timeout(PATH, &BigBody { t: *t, p: &big_pad(big)[..*n] }, d).await,
                 };
                 let at = Instant::now();
                 let _ = tx.send(Fin { idx, res: conv(r), at });
@@ -228,8 +300,8 @@ fn launch(sh: &Shared, cli: &Cli, tx: &mpsc::Sender<Fin>, idx: usize, body: Body
                 let r = match (&body, timeout) {
                     (Body::Small(v), None) => c.call_json(PATH, v).await,
                     (Body::Small(v), Some(d)) => c.call_json_with_timeout(PATH, v, d).await,
-                    (Body::Big(t), None) => c.call_json(PATH, &BigBody { t: *t, p: big_pad(big) }).await,
-                    (Body::Big(t), Some(d)) => c.call_json_with_timeout(PATH, &BigBody { t: *t, p: big_pad(big) }, d).await,
+                    (Body::Big(t, n), None) => c.call_json(PATH, &BigBody { t: *t, p: &big_pad(big)[..*n] }).await,
+                    (Body::Big(t, n), Some(d)) => c.call_json_with_timeout(PATH, &BigBody { t: *t, p: &big_pad(big)[..*n] }, d).await,
                 };
                 let at = Instant::now();
                 let _ = tx.send(Fin { idx, res: conv(r), at });
@@ -249,13 +321,43 @@ impl Book {
         let (tx, rx) = mpsc::channel();
         Book { tx, rx, v: vec![] }
     }
+    /// `pad`: bytes of padding (the Sender's is the size of the big body).
     fn go(&mut self, sh: &Shared, cli: &Cli, role: Role, pad: usize, timeout: Option<Duration>) -> usize {
+        self.go_on(None, sh, cli, role, pad, timeout)
+    }
+    /// `go`, on a worker thread when there is one (falls back to a fresh thread).
+    fn go_on(&mut self, worker: Option<&mpsc::Sender<Job>>, sh: &Shared, cli: &Cli, role: Role, pad: usize, timeout: Option<Duration>) -> usize {
         let idx = self.v.len();
         let token = sh.tokens.fetch_add(1, Ordering::Relaxed);
-        let body = if role == Role::Sender { Body::Big(token) } else { Body::Small(body_for(token, pad)) };
+        let body = if role == Role::Sender { Body::Big(token, pad.min(sh.big)) } else { Body::Small(body_for(token, pad)) };
         self.v.push(CallRec { role, token, timeout, launched: Instant::now(), res: None });
+        let body = match worker {
+            Some(w) => match w.send((idx, body, timeout)) {
+                Ok(()) => return idx,
+                Err(e) => e.0.1,
+            },
+            None => body,
+        };
         launch(sh, cli, &self.tx, idx, body, timeout);
         idx
+    }
+    /// Wait until call `idx` has a result, or until `deadline`.
+    fn wait_one(&mut self, idx: usize, deadline: Instant) -> bool {
+        loop {
+            self.absorb();
+            if self.v[idx].res.is_some() {
+                return true;
+            }
+            let now = Instant::now();
+            if now >= deadline {
+                return false;
+            }
+            if let Ok(f) = self.rx.recv_timeout((deadline - now).min(Duration::from_millis(50))) {
+                if let Some(c) = self.v.get_mut(f.idx) {
+                    c.res = Some((f.res, f.at));
+                }
+            }
+        }
     }
     fn absorb(&mut self) {
         while let Ok(f) = self.rx.try_recv() {
@@ -503,7 +605,7 @@ fn run_one(sh: &Shared, sc: &Scen, rng: &mut Rng) -> Out {
                 Err(e) => bail!("connect: {e}"),
             };
             if sc.write_timeout {
-                if let Err(e) = c.set_write_timeout(Some(WRITE_TIMEOUT)) {
+                if let Err(e) = c.set_write_timeout(Some(sc.wt())) {
                     bail!("set_write_timeout: {e}");
                 }
             }
@@ -577,6 +679,33 @@ fn run_one(sh: &Shared, sc: &Scen, rng: &mut Rng) -> Out {
     // --- calls in flight: written by the client, read and parsed by the peer, never answered
     let mut book = Book::new();
     let to = |on: bool| if on { Some(Duration::from_secs(40)) } else { None };
+    let local = sc.local();
+    let big_len = if sc.big_len == 0 { sh.big } else { sc.big_len.min(sh.big) };
+    // --- local-write-failure class, same-thread variant: a caller thread that first completes an answered call
+    let mut worker: Option<mpsc::Sender<Job>> = None;
+    if local && sc.same_thread {
+        if let Cli::Sync(c) = &cli {
+            worker = spawn_worker(sh, c, &book.tx);
+        }
+        if worker.is_none() {
+            bail!("worker thread could not be started");
+        }
+        let pre = book.go_on(worker.as_ref(), sh, &cli, Role::Pre, rng.usize_below(40), None);
+        let r = match peer.read_reqs(1, setup_deadline) {
+            Ok(mut r) => r.remove(0),
+            Err(e) => bail!("{e}"),
+        };
+        if let Err(e) = peer.write_raw(&r.response()) {
+            bail!("{e}");
+        }
+        if !book.wait_one(pre, setup_deadline) {
+            bail!("the answered warm-up call did not return");
+        }
+        match &book.v[pre].res {
+            Some((CallRes::Ok(v), _)) if v["t"].as_u64() == Some(book.v[pre].token) => out.count("local_write_failure_warmup_calls_answered", 1),
+            other => bail!("the answered warm-up call returned {other:?}"),
+        }
+    }
     for i in 0..sc.n_inflight {
         book.go(sh, &cli, Role::InFlight, rng.usize_below(40), to(sc.per_call_timeouts && i % 2 == 0));
     }
@@ -597,8 +726,8 @@ fn run_one(sh: &Shared, sc: &Scen, rng: &mut Rng) -> Out {
     }
 
     // --- the peer reads nothing any more; ANOTHER task starts a send that cannot complete
-    let sender = book.go(sh, &cli, Role::Sender, 0, to(sc.sender_timeout));
-    let sip = peer.sip_big_frame_start(sh.big, setup_deadline);
+    let sender = book.go_on(worker.as_ref(), sh, &cli, Role::Sender, big_len, to(sc.sender_timeout));
+    let sip = peer.sip_big_frame_start(big_len, setup_deadline);
     for i in 0..sc.n_queued {
         book.go(sh, &cli, Role::Queued, rng.usize_below(24), to(sc.per_call_timeouts && i % 2 == 1));
     }
@@ -606,14 +735,33 @@ fn run_one(sh: &Shared, sc: &Scen, rng: &mut Rng) -> Out {
     std::thread::sleep(Duration::from_millis(20 + rng.below(30)));
     book.absorb();
     let kernel_cap = sh.wmem_max.map(|w| w + 2 * rcvbuf.unwrap_or(PEER_RCVBUF) + (64 << 10));
-    let why_not = if let Err(e) = &sip {
+    // local-write-failure class: the fault is the sender's own error. The peer stays silent; the instant of the
+    // fault is the instant the failing caller returned (taken by that caller). Forced = it returned an I/O
+    // error while the peer was silent and holding the socket.
+    let mut t_local_fault: Option<Instant> = None;
+    let why_not = if local {
+        let _ = book.wait_one(sender, Instant::now() + sc.wt() + Duration::from_secs(3));
+        match &book.v[sender].res {
+            _ if sip.is_err() => Some(format!("the peer did not see the start of the big frame: {:?}", sip.as_ref().err())),
+            _ if !rcv_set => Some("SO_RCVBUF could not be set on the peer".into()),
+            Some((CallRes::Err(e), at)) if e.starts_with("Io:") => {
+                t_local_fault = Some(*at);
+                None
+            }
+            Some((r, at)) => {
+                t_local_fault = Some(*at);
+                Some(format!("the big sender returned something else than an I/O error: {}", trunc(&format!("{r:?}"), 100)))
+            }
+            None => Some(format!("the {big_len}-byte send had not failed {} ms after it began (the kernel swallowed it: tcp_wmem max {:?}, peer rcvbuf {:?})", ms(sc.wt()) + 3000, sh.wmem_max, rcvbuf)),
+        }
+    } else if let Err(e) = &sip {
         Some(format!("the peer did not see the start of the big frame: {e}"))
     } else if book.v[sender].res.is_some() {
         Some(format!("the big sender had already returned: {:?}", book.v[sender].res.as_ref().map(|r| &r.0)))
     } else if !rcv_set {
         Some("SO_RCVBUF could not be set on the peer".into())
     } else if kernel_cap.map(|c| sh.big <= c).unwrap_or(true) {
-        Some(format!("the body ({} bytes) does not provably exceed the kernel's buffering (tcp_wmem max {:?}, peer rcvbuf {:?})", sh.big, sh.wmem_max, rcvbuf))
+        Some(format!("the body ({} bytes) does not provably exceed the kernel's buffering (tcp_wmem max {:?}, peer rcvbuf {:?})", big_len, sh.wmem_max, rcvbuf))
     } else {
         None
     };
@@ -641,7 +789,7 @@ fn run_one(sh: &Shared, sc: &Scen, rng: &mut Rng) -> Out {
             Some(ws_binary_frame(&f).0)
         }
         SFault::WsEmpty => Some(ws_binary_frame(&[]).0),
-        SFault::PeerClose | SFault::PeerRst => None,
+        SFault::PeerClose | SFault::PeerRst | SFault::LocalWriteTimeout => None,
     };
     let lingers = sc.fault.lingers();
     let mut peer = Some(peer);
@@ -659,6 +807,7 @@ fn run_one(sh: &Shared, sc: &Scen, rng: &mut Rng) -> Out {
                 bail!("{e}");
             }
         }
+        None if local => {}
         None => {
             let p = peer.take().unwrap();
             if sc.fault == SFault::PeerRst {
@@ -670,15 +819,21 @@ fn run_one(sh: &Shared, sc: &Scen, rng: &mut Rng) -> Out {
             }
         }
     }
-    let t_fault = Instant::now();
-    out.count("stalled_faults_injected", 1);
+    let t_fault = t_local_fault.unwrap_or_else(Instant::now);
+    out.count(if local { "local_write_failure_scenarios" } else { "stalled_faults_injected" }, 1);
+    if local && out.forced {
+        out.count("local_write_failures_forced", 1);
+    }
 
     // --- calls issued after the fault. "Later" means: after the client's reader has seen the fault. The only logical evidence of
     // that is a call in flight having ended (a caller that reaches the client before the reader did is, for the client,
     // indistinguishable from one queued behind the stalled sender and is judged as such).
-    std::thread::sleep(Duration::from_millis(30 + rng.below(40)));
-    let seen_by = Instant::now() + Duration::from_secs(3);
-    let mut reader_saw_fault = false;
+    // (local write failure: the failing caller has returned its error, the client itself declared the connection unusable)
+    if !local {
+        std::thread::sleep(Duration::from_millis(30 + rng.below(40)));
+    }
+    let seen_by = Instant::now() + Duration::from_secs(if local { 0 } else { 3 });
+    let mut reader_saw_fault = local && out.forced;
     while Instant::now() < seen_by {
         book.absorb();
         if book.v.iter().any(|c| c.role == Role::InFlight && c.res.is_some()) {
@@ -692,18 +847,42 @@ fn run_one(sh: &Shared, sc: &Scen, rng: &mut Rng) -> Out {
     }
     let later_role = if reader_saw_fault { Role::Later } else { Role::Queued };
     out.count(if reader_saw_fault { "stalled_later_calls_issued_after_an_inflight_call_had_failed" } else { "stalled_later_calls_issued_without_evidence_judged_as_queued" }, 2);
-    book.go(sh, &cli, later_role, 3, None);
+    // (same-thread variant: the first later call comes from the thread whose write just failed)
+    book.go_on(worker.as_ref(), sh, &cli, later_role, 3, None);
     book.go(sh, &cli, later_role, 3, Some(Duration::from_secs(40)));
 
     // --- the peer lingers: neither reads nor closes. Then it goes away.
     let t_release = if lingers {
-        let until = t_fault + LINGER;
+        // (a local write failure that did not happen leaves nothing to judge: no linger)
+        let until = if local && !out.forced { t_fault } else { t_fault + LINGER };
         while Instant::now() < until {
             std::thread::sleep(Duration::from_millis(20).min(until.saturating_duration_since(Instant::now())));
         }
         let t = Instant::now();
         if let Some(mut p) = peer.take() {
-            if sc.release_rst {
+            if sc.release_resume {
+                // the peer wakes up and reads on: it meets end-of-stream (or an error) behind the partial frame and closes
+                let until = t + Duration::from_secs(5);
+                let mut tmp = vec![0u8; 256 << 10];
+                let mut drained = 0u64;
+                let mut last_progress = Instant::now();
+                loop {
+                    match p.raw().read(&mut tmp) {
+                        Ok(0) => break,
+                        Ok(k) => {
+                            drained += k as u64;
+                            last_progress = Instant::now();
+                        }
+                        // nothing more and no end-of-stream either: the peer gives up on the partial frame and closes
+                        Err(e) if would_block(&e) && last_progress.elapsed() < Duration::from_millis(500) => continue,
+                        Err(_) => break,
+                    }
+                    if Instant::now() >= until {
+                        break;
+                    }
+                }
+                out.count("stalled_peer_resumed_reading_bytes", drained);
+            } else if sc.release_rst {
                 set_linger0(p.raw());
             }
             drop(p);
@@ -734,14 +913,19 @@ fn run_one(sh: &Shared, sc: &Scen, rng: &mut Rng) -> Out {
     // --- classification
     let detail_tail = |what: &str| {
         format!(
-            "{what}; scenario: {} with {} call(s) in flight, a stalled {}-byte send by another task (peer stopped reading; start of the frame seen by the peer: {}), {} call(s) queued behind it, fault `{}` written by the peer {}",
+            "{what}; scenario: {} with {} call(s) in flight, a stalled {}-byte send by another {} (peer stopped reading; start of the frame seen by the peer: {}), {} call(s) queued behind it, {} {}",
             sc.kind.name(),
             sc.n_inflight,
-            sh.big,
+            big_len,
+            if local && sc.same_thread { "thread (one that had completed an answered call before)" } else { "task" },
             sip.is_ok(),
             sc.n_queued,
-            sc.fault.name(),
-            if lingers { format!("which then kept the socket open without reading for {} ms and released it by {}", ms(t_release - t_fault), if sc.release_rst { "RST" } else { "close" }) } else { "(the peer is gone)".to_string() },
+            if local {
+                format!("NO fault from the peer: the send was given up by the client's own write timeout ({} ms) and its caller got {}; the silent peer", sc.wt_ms, book.v[sender].res.as_ref().map(|r| trunc(&format!("{:?}", r.0), 90)).unwrap_or_default())
+            } else {
+                format!("fault `{}` written by the peer", sc.fault.name())
+            },
+            if lingers { format!("which then kept the socket open without reading for {} ms and released it by {}", ms(t_release - t_fault), sc.release_name()) } else { "(the peer is gone)".to_string() },
         )
     };
     let forced = out.forced;
@@ -796,7 +980,11 @@ fn run_one(sh: &Shared, sc: &Scen, rng: &mut Rng) -> Out {
     for (i, c) in book.v.iter().enumerate() {
         let who = format!("call#{i} ({:?}, token {}, timeout {:?})", c.role, c.token, c.timeout);
         let ended = c.res.as_ref().map(|r| r.1);
+        if c.role == Role::Pre {
+            continue; // judged at setup
+        }
         match c.role {
+            Role::Pre => {}
             Role::InFlight => judge_timing(&mut out, "inflight_call", "call-hung", who.clone(), t_fault, ended),
             Role::Queued => judge_timing(&mut out, "queued_call", "queued-call-hung", who.clone(), t_fault, ended),
             Role::Later => judge_timing(&mut out, "later_call", "later-call-hung", who.clone(), c.launched, ended),
@@ -913,8 +1101,45 @@ pub fn run_stalled(env: &mut Env, rep: &mut Report, st: &mut Stats, args: &Args)
                         push_notify: rng.coin(),
                         release_rst: rng.coin(),
                         case,
+                        wt_ms: ms(WRITE_TIMEOUT),
+                        big_len: 0,
+                        same_thread: false,
+                        release_resume: false,
                     });
                 }
+            }
+        }
+        // the blocking client's own write failure as the fault (own random stream: the table above keeps its choices)
+        {
+            let mut lr = Rng::new(args.seed ^ 0x10CA_1F41 ^ (round << 40));
+            let above = wmem_max.map(|w| w + 2 * PEER_RCVBUF + (256 << 10)).unwrap_or(big);
+            // (in flight, body bytes): just above what the kernel can hold .. well above; the last one can be swallowed
+            let mut rows: Vec<(usize, usize)> = vec![(1, big), (2, above.min(big)), (3, (above + big) / 2), (5, big), (8, above.min(big)), (16, big), (1 + lr.usize_below(16), big), (2, wmem_max.map(|w| w / 2).unwrap_or(big / 4))];
+            if round > 0 {
+                for _ in 0..4 {
+                    rows.push((1 + lr.usize_below(16), above.min(big) + lr.usize_below(big - above.min(big) + 1)));
+                }
+            }
+            for (i, (n_inflight, big_len)) in rows.into_iter().enumerate() {
+                case += 1;
+                let rel = (i as u64 + lr.below(3)) % 3;
+                scens.push(Scen {
+                    kind: Kind::Sync,
+                    fault: SFault::LocalWriteTimeout,
+                    write_timeout: true,
+                    n_inflight,
+                    n_queued: lr.usize_below(3),
+                    // mostly none: a call with its own timeout is not the one that can hang forever
+                    per_call_timeouts: lr.chance(1, 4),
+                    sender_timeout: lr.coin(),
+                    push_notify: false,
+                    release_rst: rel == 1,
+                    case,
+                    wt_ms: 100 + lr.below(301),
+                    big_len,
+                    same_thread: i % 2 == 1,
+                    release_resume: rel == 2,
+                });
             }
         }
         env.hb_reset();
@@ -959,7 +1184,7 @@ pub fn run_stalled(env: &mut Env, rep: &mut Report, st: &mut Stats, args: &Args)
                 continue;
             }
             rep.eval();
-            rep.distinct(&("stalled-writer", sc.kind, sc.fault, sc.write_timeout, sc.n_inflight, sc.n_queued));
+            rep.distinct(&(sc.class(), sc.kind, sc.fault, sc.write_timeout, sc.n_inflight, sc.n_queued, sc.same_thread, sc.release_name(), sc.big_len));
             rep.count("stalled_scenarios_run", 1);
             st.bump(format!("stalled|{}|{}|{}", sc.kind.name(), sc.class(), if o.forced { "writer-stalled" } else { "not-forced" }));
             if o.forced {
@@ -968,7 +1193,7 @@ pub fn run_stalled(env: &mut Env, rep: &mut Report, st: &mut Stats, args: &Args)
             } else {
                 rep.count("stalled_writer_not_forced", 1);
             }
-            table.entry(format!("{}|{}", sc.kind.name(), sc.class())).or_default().insert(sc.fault.name(), if o.forced { "writer-stalled".into() } else { format!("not forced: {}", o.not_forced_why.clone().unwrap_or_default()) });
+            table.entry(format!("{}|{}", sc.kind.name(), sc.class())).or_default().insert(if sc.local() { format!("write-timeout {} ms, {} in flight, {} body bytes, big request from {}, release {}", sc.wt_ms, sc.n_inflight, sc.big_len, if sc.same_thread { "a thread with a completed call" } else { "a fresh thread" }, sc.release_name()) } else { sc.fault.name() }, if o.forced { "writer-stalled".into() } else { format!("not forced: {}", o.not_forced_why.clone().unwrap_or_default()) });
             for (k, n) in &o.counts {
                 rep.count(k, *n);
             }
@@ -1036,7 +1261,7 @@ pub fn run_stalled(env: &mut Env, rep: &mut Report, st: &mut Stats, args: &Args)
     rep.set("stalled_prompt_latency_max_ms", json!(prompt_max));
     // the class must really have been produced for every client, otherwise it was not exercised
     if rep.violations.is_empty() && env.hangs_left > 0 {
-        for k in ["client|stalled-writer", "client|stalled-writer+write-timeout", "async_client|stalled-writer", "ws_client|stalled-writer"] {
+        for k in ["client|stalled-writer", "client|stalled-writer+write-timeout", "client|local-write-failure", "async_client|stalled-writer", "ws_client|stalled-writer"] {
             if forced_by_kind.get(k).copied().unwrap_or(0) == 0 {
                 rep.inconclusive(format!("a fault under a stalled writer was never forced for {k}"));
             }
